@@ -40,6 +40,10 @@ type c06State struct {
 	// after the slash, returned an error (HandleSlashedValidators ignores such errors)
 	slashBalErr  map[string]string
 	slashHeight  int64 // height of the block whose start performed the slash
+	// diagnosis only: delegators whose redelegation from the slashed validator was slashed (forced
+	// unbond at the destination validator) while the hook-disable flag of the previous transaction
+	// was still set
+	slashRedelSuppressed map[string]bool
 }
 
 // c06SlashErrOf returns the diagnosis for a delegator if the current block started with a slash.
@@ -583,7 +587,42 @@ var c06Fractions = []string{"0.0001", "0.01", "0.05", "0.000001", "0.1", "0.3333
 func (s *Sim) opC06Slash() {
 	r := s.R
 	st := s.c06St()
+	var directed *Account
+	if r.Chance("fault", 1, 5) {
+		// the last transaction of the ending block is a staking-module redelegation of everything a
+		// delegator has at the validator that is slashed next
+		if hold := s.c06Holdings(nil); len(hold) > 0 && len(s.Validators) >= 2 {
+			h := hold[r.Draw("fault", len(hold))]
+			dst := s.Validators[r.Draw("fault", len(s.Validators))]
+			msg := stakingtypes.NewMsgBeginRedelegate(h.Acc.Account.Addr, h.Val, c06Val(dst), s.Coin(i64(h.Tokens)))
+			r.Logf("c06_val_redelegate (all, right before a slash): %s %s->%s %s ...", h.Acc.Name, s.c06ValName(h.Val), dst.Name, h.Tokens)
+			res := s.c06Tx("c06_val_redelegate", msg)
+			r.Logf("   ... c06_val_redelegate: %s", short(res.Err))
+			if res.Err == nil {
+				r.Probe("c06_redelegate_hooks_suppressed")
+				for _, cand := range s.Validators {
+					if c06Val(cand).Equals(h.Val) {
+						directed = cand
+					}
+				}
+			}
+		}
+	}
 	v := s.pickVal()
+	if directed != nil {
+		v = directed
+	} else if r.Chance("fault", 1, 3) {
+		// prefer a validator that is the source of a pending redelegation
+		var srcs []*Account
+		for _, cand := range s.Validators {
+			if len(s.K.StakingKeeper.GetRedelegationsFromSrcValidator(s.Ctx, c06Val(cand))) > 0 {
+				srcs = append(srcs, cand)
+			}
+		}
+		if len(srcs) > 0 {
+			v = srcs[r.Draw("fault", len(srcs))]
+		}
+	}
 	val, found := s.K.StakingKeeper.GetValidator(s.Ctx, c06Val(v))
 	if !found || val.IsUnbonded() || !val.Tokens.IsPositive() {
 		r.Op("c06_slash", "none")
@@ -595,6 +634,9 @@ func (s *Sim) opC06Slash() {
 	newH := s.Ctx.BlockHeight() + 1
 	// infraction height: current block, a few blocks back (downtime uses height-2), or older evidence
 	back := []int64{0, 2, 1, 3, 5, 10, 30, 100}[r.Draw("fault", 8)]
+	if directed != nil && back == 0 {
+		back = 2
+	}
 	infr := newH - back
 	if infr < 1 {
 		infr = 1
@@ -611,7 +653,9 @@ func (s *Sim) opC06Slash() {
 	if err != nil {
 		panic(err)
 	}
-	power := val.ConsensusPower(s.K.StakingKeeper.PowerReduction(s.Ctx))
+	// the power the validator had (evidence carries the power at the infraction height; a validator
+	// that is unbonding by now has no current consensus power)
+	power := sdk.TokensToConsensusPower(val.Tokens, s.K.StakingKeeper.PowerReduction(s.Ctx))
 	if r.Chance("fault", 1, 4) {
 		power = power / int64(1+r.Draw("fault", 4))
 	}
@@ -628,12 +672,17 @@ func (s *Sim) opC06Slash() {
 	}
 	st.blockEvents = map[string]int{c06Val(v).String(): 1}
 	nRed := 0
+	hookFlag := s.K.Dualstaking.GetDisableDualstakingHook(s.Ctx)
+	st.slashRedelSuppressed = map[string]bool{}
 	if infr < newH {
 		for _, red := range s.K.StakingKeeper.GetRedelegationsFromSrcValidator(s.Ctx, c06Val(v)) {
 			for _, e := range red.Entries {
 				if e.CreationHeight >= infr {
 					st.blockEvents[red.ValidatorDstAddress]++
 					nRed++
+					if hookFlag {
+						st.slashRedelSuppressed[red.DelegatorAddress] = true
+					}
 				}
 			}
 		}
@@ -654,6 +703,9 @@ func (s *Sim) opC06Slash() {
 				st.slashBalErr[d.DelegatorAddress] = c06ErrKind(berr)
 				r.Probe("c06_slash_rebalance_error")
 				r.Logf("   (diagnosis) BalanceDelegator(%s) right after the slash would fail: %s", s.NameOf(d.DelegatorAddress), c06ErrKind(berr))
+				if debugOn {
+					r.Logf("      [dbg] %v", berr)
+				}
 			}
 		}
 	})
@@ -675,6 +727,9 @@ func (s *Sim) opC06Slash() {
 	}
 	if nRed > 0 {
 		r.Probe("c06_slash_reaches_redelegations")
+		if hookFlag {
+			r.Probe("c06_slash_reaches_redelegations_with_hooks_suppressed")
+		}
 	}
 	r.Op("c06_slash", "ok")
 	r.Logf("c06_slash %s fraction=%s power=%d infraction=%d (new height %d) jail=%v tokens %s->%s users=%d providerUsers=%d redelegationEntries=%d", v.Name, frac, power, infr, newH, jail, before, after, users, providerUsers, nRed)
@@ -686,7 +741,7 @@ func c06ErrKind(err error) string {
 		return "ok"
 	}
 	e := err.Error()
-	for _, k := range []string{"self delegation below minimum", "balances are not balanced", "insufficient delegation", "delegation not found", "negative coin amount", "provider metadata", "not found"} {
+	for _, k := range []string{"self delegation below minimum", "invalid coin amount", "balances are not balanced", "insufficient delegation", "delegation not found", "negative coin amount", "provider metadata", "not found"} {
 		if strings.Contains(e, k) {
 			return k
 		}
@@ -854,6 +909,8 @@ func (m *c06Mon) observe(where string, weight func(valoper string) int) {
 			sig := "after " + c06Kind(where)
 			if kind := s.c06SlashErrOf(d); where == "block" && kind != "" {
 				sig = "after block: rebalancing the delegator after a validator slash failed (" + kind + ") and the error was ignored"
+			} else if st := s.c06St(); where == "block" && st.slashHeight == s.Ctx.BlockHeight() && st.slashRedelSuppressed[d] {
+				sig = "after block: a slashed redelegation was unbonded at the destination validator while the hooks were still disabled by the previous transaction's redelegation flag"
 			}
 			lavaDiff, nprov, lerr := s.K.Dualstaking.VerifyDelegatorBalance(ctx, acc)
 			// diagnostic only: what would balancing this delegator now answer?
